@@ -427,6 +427,8 @@ def evaluate(ctx, recs, witness_fails):
             ctx.mismatch("model vs TagAttributes", dict(explain(ctx, rec, bad) if first else {"step": bad}, case=case))
         if "finding" in rec:
             witness_fails[rec["finding"]] = t is not None
+        if c == 0:
+            tally(ctx, "whole-run-inside-theorem-domain:" + rec["mode"])
         if c == 5:
             ctx.mismatch("initial state not well-formed", {"case": case, "init": rec["init"]})
         if t is None:
